@@ -150,11 +150,13 @@ SPEC = dict(
 )
 
 MANIFEST = dict(
-    text='30 Coq theorems over all real arguments on definitions regenerated from tools.py/laue.py: each constructor equals the documented '
+    text='37 Coq theorems over all real arguments on definitions regenerated from tools.py/laue.py: each constructor equals the documented '
          'composition (Rz Rx Rz; Rx Ry Rz; P Rz P^T; axis-angle facts for Rodrigues incl. passive sense) and is a proper rotation; '
-         'u_to_rod/rod_to_u are mutual inverses on SO(3) minus 180-degree rotations. The u_to_euler inverse (1e-6, near gimbal lock) is '
-         'decided by the numeric search harness on the implementation only (partial).',
-    design_ref='DESIGN.md section 5 C03',
-    note='Trusted: Coq kernel, R axioms, T1 tracer. u_to_euler round trip not proved (piecewise with tolerances): covered by directed numeric search.',
-    technique='Coq proof over R of generated model (ring/nsatz in the orthonormality ideal); numeric search for the Euler inverse',
+         'u_to_rod/rod_to_u are mutual inverses on SO(3) minus 180-degree rotations; u_to_euler returns angles in [0,2pi]x[0,pi]x[0,2pi] for every input, '
+         'euler_to_u(u_to_euler U) = U exactly for every rotation outside the code\'s own tolerance bands (gimbal band 1e-8, an _arctan2 argument below 1e-8 '
+         'of the other), and u_to_euler(euler_to_u(a)) = a there. Inside the bands (error <= 1e-6 claimed by the property) the behaviour is decided by the '
+         'directed numeric search on the implementation only.',
+    design_ref='DESIGN.md section 5 C03 and section 10',
+    note='Trusted: Coq kernel, R axioms, T1 tracer. Partial only inside the tolerance bands of u_to_euler (search).',
+    technique='Coq proof over R of generated model (ring/nsatz in the orthonormality ideal, atan2 lemmas); numeric search inside the Euler tolerance bands',
 )
